@@ -408,7 +408,7 @@ impl Monitors {
                     v.push(f(
                         "C06",
                         "rtx-discipline",
-                        "rtx/acknowledged-segment-retransmitted",
+                        if self.desync { "probe/acked-after-expiry-desynchronises-stream" } else { "rtx/acknowledged-segment-retransmitted" },
                         format!("sequence number {} ({} bytes at offset {}) had been acknowledged by the peer and was transmitted again", seq, t.len, t.off),
                     ));
                 }
@@ -1409,6 +1409,10 @@ impl Monitors {
                 }
                 _ => {}
             }
+        }
+        if self.desync {
+            // sender and monitor no longer agree on what has been transmitted (known finding F18)
+            return;
         }
         // deadlock: accepted bytes neither sent nor acknowledged, windows open, nothing in flight and no timer armed
         let transmitted: u64 = self.tx.values().map(|t| t.len as u64).sum();
